@@ -26,6 +26,29 @@ from_wire = core.from_wire
 def values_with_refs_text(rng, doc):
     """accepted values, some containing brace / reference-looking text (must not be re-expanded)"""
     vals = G.gen_values(rng, doc)
+    # a value that is EXACTLY the source text of a LATER reference of the same string (a resolver that
+    # substitutes by textual search instead of by position would expand it again)
+    import re as _re
+    free = {p["name"] for p in doc.get("parameterDefinitions") or []
+            if p["type"] == "STRING" and not any(k in p for k in ("allowedValues", "minLength", "maxLength"))}
+
+    def strings(x, key=None):
+        if isinstance(x, dict):
+            for k, v in x.items():
+                yield from strings(v, k)
+        elif isinstance(x, list):
+            for v in x:
+                yield from strings(v, key)
+        elif isinstance(x, str) and key in ("name", "range", "anyOf", "allOf"):
+            yield x
+    if free and rng.random() < 0.5:
+        for s in strings({"name": doc.get("name"), "steps": [{"r": st.get("parameterSpace"), "h": st.get("hostRequirements")} for st in doc.get("steps", [])]}):
+            exprs = _re.findall(r"\{\{.*?\}\}", s)
+            for i, e in enumerate(exprs[:-1]):
+                m = _re.fullmatch(r"\{\{\s*(?:Raw)?Param\s*\.\s*(\w+)\s*\}\}", e)
+                if m and m.group(1) in free and exprs[i + 1] != e:
+                    vals[m.group(1)] = exprs[i + 1]
+                    break
     for p in doc.get("parameterDefinitions") or []:
         if p["type"] == "STRING" and p["name"] in vals and not any(k in p for k in ("allowedValues", "minLength", "maxLength")) and rng.random() < 0.4:
             vals[p["name"]] = rng.choice(["{{Param.Other}}", "{{ RawParam." + p["name"] + " }}", "}}{{", "a{{b", "x y", ""])
